@@ -90,7 +90,37 @@ def _work(items):
     return [judge_doc(d, cs, v) for d, cs, v in items]
 
 
+def _params_work(cases):
+    from yamlpath.path import SearchKeywordTerms
+    from yamlpath.enums import PathSearchKeywords
+    bad = []
+    for c in cases:
+        try:
+            got = (True, list(SearchKeywordTerms(False, PathSearchKeywords.MAX, c["t"]).parameters))
+        except ValueError:
+            got = (False, [])
+        except Exception as ex:  # pylint: disable=broad-except
+            got = ("crash", type(ex).__name__)
+        if got != (c["ok"], c["params"]):
+            bad.append((c, got))
+    return bad
+
+
 def run(ctx):
+    # parameter splitting (searchkeywordterms.py:66-139): the splitter machine of spec/YKwParams.tla,
+    # every text up to the bound, replayed into SearchKeywordTerms.parameters
+    import os
+    f = ctx.path("kwparams.cases")
+    r = core.run_tlc(ctx, "MC_KwParams", "MC_KwParams.cfg", env={"CASES_OUT": f})
+    if r["violated"]:
+        raise core.MachineryError("%s violated in MC_KwParams (see %s)" % (r["violated"], r["log"]))
+    pcs = core.read_csv_json_lines(f)
+    os.remove(f)
+    for c, got in querycorpus.pmap(_params_work, pcs, chunk=2000):
+        ctx.violation("params:%s" % ("raises" if got[0] == "crash" else "split"),
+                      "parameters %r split into %s, the splitter machine gives ok=%s %s" % (c["t"], got, c["ok"], c["params"]),
+                      {"kind": "params", "case": c})
+    ctx.coverage["parameter_texts"] = len(pcs)
     corpus = querycorpus.tlc_corpus(ctx, "MC_Keywords", ["MC_Keywords_q.cfg"] if ctx.quick else ["MC_Keywords_t.cfg"])
     corpus += querycorpus.tlc_corpus(ctx, "MC_Query", ["MC_Query_c15q.cfg"] if ctx.quick else ["MC_Query_c15t.cfg"])
     items = [(d, cs, querycorpus.variant_of(d, ctx.seed, ctx.quick)) for d, cs in corpus]
@@ -114,6 +144,11 @@ def run(ctx):
 def replay(path):
     with open(path) as fh:
         rp = json.load(fh)["replay"]
+    if rp.get("kind") == "params":
+        bad = _params_work([rp["case"]])
+        print(bad)
+        print("VIOLATION property=C13 replay=%s" % path if bad else "no violation")
+        return 1 if bad else 0
     out, _ = judge_doc(rp["doc"], [rp["case"]], [(rp["style"], rp["plain"])])
     for sig, desc, _ in out:
         print(sig, "::", desc)
